@@ -63,7 +63,7 @@ Section Live.
               chain (fun v => K <= v) (expected C (fw C s)) (to_fw C s)
   }.
 
-  Definition LInv (boot : Z) (s : sys) : Prop := s = init C boot true \/ BInv s.
+  Definition LInv (boot : Z) (g : bool) (s : sys) : Prop := s = init C boot g \/ BInv s.
 
   Lemma resend_le_mono e e' th : e <= e' -> resend_le e th -> resend_le e' th.
   Proof. intros He H. eapply Forall_impl; [|exact H]. intros [|m]; cbn; lia. Qed.
@@ -80,12 +80,15 @@ Section Live.
   Local Arguments Kq : simpl never.
   Local Arguments Sender.cmds_of : simpl never.
 
-  Lemma linv_step boot l s s' : 0 <= boot -> Inv C job true s -> LInv boot s -> step C job l s = Some s' -> LInv boot s'.
+  Lemma linv_step boot g l s s' : 0 <= boot -> Inv C job g s -> LInv boot g s -> step C job l s = Some s' -> LInv boot g s'.
   Proof.
     intros Hboot HI [->|HB] Hstep.
     - (* the initial state: only the firmware can move (the sender is not clear, nothing to read) *)
-      destruct l as [good| |]; cbn in Hstep; try discriminate. injection Hstep as <-. right.
-      constructor; cbn; auto; try lia; try (repeat constructor); try (intros _; right; unfold nxt; cbn; lia); try (intros E; discriminate).
+      destruct l as [good| |]; cbn in Hstep; try discriminate. destruct g; cbn in Hstep; injection Hstep as <-; right.
+      + constructor; cbn; auto; try lia; try (repeat constructor); try (intros _; right; unfold nxt; cbn; lia); try (intros E; discriminate).
+      + (* the reset itself was corrupted: it is rejected, and the Resend it produces is the witness *)
+        constructor; cbn; auto; try lia; try (intros E; discriminate);
+          try (constructor; [cbn; lia|repeat constructor]); try (intros _; left; reflexivity).
     - destruct HI as [Hln _ _ _ _ _]. destruct HB as [Hnr Hex Hres Hpr Hen].
       destruct s as [sd f tf th]. destruct sd as [ln rf q cl pr sl]. cbn in *. right.
       destruct l as [good| |]; cbn in Hstep.
@@ -156,8 +159,8 @@ Section Live.
              apply andb_false_iff in E as [E|E]; apply Z.ltb_ge in E; lia.
           -- intros _. right. left. lia.
   Qed.
-  Lemma both_run boot : 0 <= boot -> forall ls s0 s, Inv C job true s0 -> LInv boot s0 -> run C job ls s0 = Some s ->
-    Inv C job true s /\ LInv boot s.
+  Lemma both_run boot g : 0 <= boot -> forall ls s0 s, Inv C job g s0 -> LInv boot g s0 -> run C job ls s0 = Some s ->
+    Inv C job g s /\ LInv boot g s.
   Proof.
     intros Hb. induction ls as [|l ls IH]; intros s0 s Hi Hl H; cbn in H; [injection H as <-; split; assumption|].
     destruct (step C job l s0) as [s1|] eqn:E; [|discriminate].
@@ -172,7 +175,7 @@ Section Live.
     quiescent C s -> resendfrom C (snd_ C s) = -1 -> accepted C (fw C s) = cmds_of C job.
   Proof.
     intros Hb Hr (Hp & Hw & Hh) Hrf.
-    destruct (both_run boot Hb ls _ s (inv_init C job boot true Hb) (or_introl eq_refl) Hr) as [HI [->|HB]].
+    destruct (both_run boot true Hb ls _ s (inv_init C job boot true Hb) (or_introl eq_refl) Hr) as [HI [->|HB]].
     - cbn in Hp. discriminate.
     - destruct HB as [_ _ _ _ Hen]. destruct (Hen Hp) as [Hh2|[Hrf2|Hch]].
       + rewrite Hh in Hh2. discriminate.
@@ -181,6 +184,49 @@ Section Live.
         destruct HI as [_ _ _ _ [Hs Hle] Hrs].
         destruct Hrs as [(rest & E & _)|[_ Hg]]; [rewrite Hw in E; discriminate|]. specialize (Hg eq_refl).
         rewrite Hg, Z.sub_diag in Hs. unfold slice in Hs. cbn [Z.to_nat skipn] in Hs.
+        assert (Hlen : (length (accepted C (fw C s)) <= length (cmds_of C job))%nat).
+        { rewrite Hs at 1. rewrite firstn_length. lia. }
+        assert (Heq : length (accepted C (fw C s)) = length (cmds_of C job)) by lia.
+        rewrite Hs, Heq. apply firstn_all.
+  Qed.
+  (* a firmware that boots expecting N0: the number it expects is always the number of commands it has accepted,
+     whether or not the reset transmission gets through *)
+  Definition E0 (s : sys) : Prop := expected C (fw C s) = Z.of_nat (length (accepted C (fw C s))).
+
+  Lemma e0_step g l s s' : Inv C job g s -> E0 s -> step C job l s = Some s' -> E0 s'.
+  Proof.
+    intros [_ _ _ _ _ Hrs] He H. unfold E0 in *. destruct s as [sd f tf th]. cbn in *.
+    destruct l as [good| |]; cbn in H.
+    - destruct (clear C sd && printing C sd); [|discriminate].
+      destruct (sendnext C job sd) as [[sd' w]|]; [|discriminate]. destruct w; injection H as <-; exact He.
+    - destruct tf as [|fr rest]; [discriminate|]. destruct (fw_react C f fr) as [f' rs] eqn:Hre. injection H as <-. cbn.
+      unfold fw_react in Hre. destruct (negb (fgood C fr)) eqn:Hg; [injection Hre as <- <-; exact He|].
+      destruct fr as [pay gd]. cbn in *. destruct pay as [n c|].
+      + destruct (n =? expected C f); injection Hre as <- <-; cbn; [rewrite app_length; cbn; lia|exact He].
+      + injection Hre as <- <-. cbn. destruct Hrs as [(rest0 & E & _ & Ha)|[Hnr _]].
+        * rewrite Ha. reflexivity.
+        * cbn in Hnr. discriminate.
+    - destruct th as [|r rest]; [discriminate|]. injection H as <-. exact He.
+  Qed.
+
+  Theorem complete_unless_late_resend_boot0 g ls s : run C job ls (init C 0 g) = Some s ->
+    quiescent C s -> resendfrom C (snd_ C s) = -1 -> accepted C (fw C s) = cmds_of C job.
+  Proof.
+    intros Hr (Hp & Hw & Hh) Hrf.
+    assert (Hall : Inv C job g s /\ LInv 0 g s /\ E0 s).
+    { revert Hr. generalize (inv_init C job 0 g (Z.le_refl 0)).
+      assert (HL0 : LInv 0 g (init C 0 g)) by (left; reflexivity).
+      assert (HE0 : E0 (init C 0 g)) by reflexivity. revert HL0 HE0. generalize (init C 0 g).
+      induction ls as [|l ls IH]; intros s0 HL HE HI H; cbn in H; [injection H as <-; auto|].
+      destruct (step C job l s0) as [s1|] eqn:E; [|discriminate].
+      apply (IH s1); [eapply linv_step; eauto; lia|eapply e0_step; eauto|eapply inv_step; eauto|exact H]. }
+    destruct Hall as (HI & [->|HB] & HE).
+    - cbn in Hp. discriminate.
+    - destruct HB as [_ _ _ _ Hen]. destruct (Hen Hp) as [Hh2|[Hrf2|Hch]].
+      + rewrite Hh in Hh2. discriminate.
+      + contradiction.
+      + rewrite Hw in Hch. cbn in Hch. destruct HI as [_ _ _ _ [Hs Hle] _]. unfold E0 in HE.
+        rewrite HE, Z.sub_diag in Hs. unfold slice in Hs. cbn [Z.to_nat skipn] in Hs.
         assert (Hlen : (length (accepted C (fw C s)) <= length (cmds_of C job))%nat).
         { rewrite Hs at 1. rewrite firstn_length. lia. }
         assert (Heq : length (accepted C (fw C s)) = length (cmds_of C job)) by lia.
